@@ -37,7 +37,9 @@ SPEC_KINDS = dict(NODE_KINDS)
 SPEC_KINDS["mixed"] = [0, "a", 2, "b", 10, "c", -1]
 SPEC_KINDS["float"] = [0.0, 1.5, 2.0, -3.0, 10.0, 0.25, 7.0]
 # kinds that are only drawn where a check asks for them by name
-EXTRA_KINDS = {"uni": ["\u00e9", "\u00f1", "a", "\u00fc", "b", "\u00df", "\u00f8"]}  # non-ASCII strings (latin-1 representable)
+# "brk": labels with an interior character that str.splitlines() treats as a line boundary but a file iterated in binary
+# mode does not (\r, \x0b, \x0c, \x1c-\x1e, \x85, U+2028, U+2029) - only for non-whitespace delimiters
+EXTRA_KINDS = {"brk": ["x\ry", "a\u2028b", "p\x0bq", "c", "d", "e\x85f", "g\x1dh"], "uni": ["\u00e9", "\u00f1", "a", "\u00fc", "b", "\u00df", "\u00f8"]}  # non-ASCII strings (latin-1 representable)
 spec_kinds = st.sampled_from(sorted(SPEC_KINDS))
 # mixed int/str labels hit the documented ambiguity of the bulk formats ("members cannot be strings"; a str first
 # member followed by a non-str is parsed as (members, id)), also inside library functions that add in bulk
